@@ -55,20 +55,23 @@ PROPS["C01"] = P(
     "messages of (app, mailbox id); every operation changes a message slot only by deleting it together "
     "with its mailbox row and all messages of that mailbox; INV.msg_mailbox (no message outlives its mailbox)",
     lambda tier: all_ops(tier, ["C01.", "INV.msg_mailbox", "INV.uniq_mailbox_id"]) +
-                 restart_tasks(tier, [(["open_add", "open_add_sweep", "open_close_other"], ["open", "openadd"])]))
+                 restart_tasks(tier, [(["open_add", "open_add_sweep", "open_close_other"], ["open", "openadd"]),
+                                      (["any2", "any2_sweep"] + (["any3"] if tier == "thorough" else []), ["open", "openadd"])]))
 
 PROPS["C02"] = P(
     "step(add) with other connections in arbitrary subscription states: one message frame per subscribed "
     "connection (adder included), none elsewhere, fields = bound side + command fields; INV_MEM (one "
     "registry object per app / mailbox, listener sets = listening connections) preserved by every operation",
     lambda tier: all_ops(tier, ["C02.", "MEM."]) +
-                 restart_tasks(tier, [(["open_add", "open_add_sweep", "claim"], ["openadd"])]))
+                 restart_tasks(tier, [(["open_add", "open_add_sweep", "claim"], ["openadd"]),
+                                      (["any2", "any2_sweep"] + (["any3"] if tier == "thorough" else []), ["openadd"])]))
 
 PROPS["C03"] = P(
     "step(claim): answer = stored mailbox id of (app, name) or the freshly generated one; nameplate rows "
     "never change except by deletion; uniqueness invariants preserved by every operation",
     lambda tier: all_ops(tier, ["C03.", "INV.uniq_", "INV.np_mailbox", "INV.npid_below_counter"]) +
-                 restart_tasks(tier, [(["alloc", "claim"], ["claim", "allocate"]), (["alloc_sweep_claim"], ["claim"])]))
+                 restart_tasks(tier, [(["alloc", "claim"], ["claim", "allocate"]), (["alloc_sweep_claim"], ["claim"]),
+                                      (["any2", "any2_sweep"] + (["any3"] if tier == "thorough" else []), ["claim", "allocate"])]))
 
 PROPS["C05"] = P(
     "step(open|claim|close-that-opens) on a mailbox that already has two other side rows: exactly "
@@ -81,7 +84,8 @@ PROPS["C07"] = P(
     "`released`; claim by a side that released => `reclaimed`, store unchanged; list = names of the app; a "
     "claim flag of another (nameplate, side) changes in no operation except by deletion with its own mailbox",
     lambda tier: all_ops(tier, ["C07.", "INV.np_has_claim", "INV.fk_nameplate_side"]) +
-                 restart_tasks(tier, [(["claim_list_open_close", "claim_list_release"], ["list", "allocate", "claim"])]))
+                 restart_tasks(tier, [(["claim_list_open_close", "claim_list_release"], ["list", "allocate", "claim"]),
+                                      (["any2", "any2_sweep"] + (["any3"] if tier == "thorough" else []), ["list", "claim", "release"])]))
 
 PROPS["C08"] = P(
     "step(close) from every INV pre-state (handle present or re-sent on a fresh connection, nameplate "
@@ -177,7 +181,10 @@ RESTART_ALL = lambda tier: [
     (["alloc_sweep_claim"], ["claim", "allocate"] if tier == "thorough" else ["claim"]),
     (["claim_list_open_close", "claim_list_release"], ["list", "allocate", "claim", "open"]),
     (["list_other_app"], ["list", "allocate", "claim"]),
-    (["alloc_claim"], ["allocate", "claim"]),
+] + ([(["alloc_claim"], ["allocate", "claim"])] if tier == "thorough" else []) + [      # (quick: only in C04's own check)
+    # generic sessions from the empty store: every 2-command (thorough: 3-command) session of one connection,
+    # optionally followed by a long silence and a sweep, then every command from a reconnecting client
+    (["any2", "any2_sweep"] + (["any3", "any3_sweep"] if tier == "thorough" else []), None),
 ]
 
 PROPS["C11"] = P(
